@@ -4,6 +4,7 @@ import (
 	"bytes"
 	"encoding/binary"
 	"fmt"
+	"math"
 
 	"github.com/SAP/go-dblib/asetypes"
 	"github.com/SAP/go-dblib/tds"
@@ -167,14 +168,85 @@ func goValue(dt asetypes.DataType, raw []byte) (v interface{}, ok bool) {
 // data types whose writer behaviour is not modelled (Decimal normalisation, UTF-16 re-encoding)
 var keyUnmodelled = map[int]bool{0x6A: true, 0x6C: true, 0xAE: true}
 
+// keyRender: (dt view bytes); view 0 = nil, 1 = plain Go value rendered as little-endian bytes, 2 = not rendered
+// (*Decimal, time.Time, UNITEXT string).
+func keyRender(p tds.Package) sx.T {
+	kp := p.(*tds.KeyPackage)
+	view, raw := int64(2), []byte{}
+	le := func(v uint64, n int) []byte {
+		b := make([]byte, 8)
+		binary.LittleEndian.PutUint64(b, v)
+		return b[:n]
+	}
+	switch v := kp.Value.(type) {
+	case nil:
+		view = 0
+	case uint8:
+		view, raw = 1, le(uint64(v), 1)
+	case int16:
+		view, raw = 1, le(uint64(v), 2)
+	case int32:
+		view, raw = 1, le(uint64(v), 4)
+	case int64:
+		view, raw = 1, le(uint64(v), 8)
+	case uint16:
+		view, raw = 1, le(uint64(v), 2)
+	case uint32:
+		view, raw = 1, le(uint64(v), 4)
+	case uint64:
+		view, raw = 1, le(v, 8)
+	case float32:
+		view, raw = 1, le(uint64(math.Float32bits(v)), 4)
+	case float64:
+		view, raw = 1, le(math.Float64bits(v), 8)
+	case bool:
+		view, raw = 1, []byte{0}
+		if v {
+			raw = []byte{1}
+		}
+	case []byte:
+		view, raw = 1, v
+	case string:
+		if kp.DataType != asetypes.UNITEXT {
+			view, raw = 1, []byte(v)
+		}
+	}
+	return sx.L{sx.I(int64(kp.DataType)), sx.I(view), sx.B(raw)}
+}
+
+// keyExpect: the same view, from the TDS meaning of the data types (independent of the library):
+// what a reader should make of the value bytes raw of a column of type dt.
+func keyExpect(dt int, raw []byte) sx.T {
+	t := asetypes.DataType(dt)
+	view, out := int64(2), []byte{}
+	switch t {
+	case asetypes.INT1, asetypes.INT2, asetypes.INT4, asetypes.INT8, asetypes.UINT2, asetypes.UINT4, asetypes.UINT8,
+		asetypes.FLT4, asetypes.FLT8:
+		view, out = 1, raw
+	case asetypes.BIT:
+		view, out = 1, []byte{0}
+		if len(raw) == 1 && raw[0] == 1 {
+			out = []byte{1}
+		}
+	case asetypes.INTN, asetypes.UINTN, asetypes.FLTN, asetypes.CHAR, asetypes.VARCHAR, asetypes.TEXT, asetypes.LONGCHAR,
+		asetypes.BINARY, asetypes.VARBINARY, asetypes.LONGBINARY, asetypes.IMAGE, asetypes.XML:
+		view, out = 1, raw
+		if len(raw) == 0 {
+			view = 0 // NULL
+		}
+	case asetypes.DATEN, asetypes.TIMEN, asetypes.BIGTIMEN, asetypes.DATETIMEN, asetypes.BIGDATETIMEN, asetypes.UNITEXT:
+		if len(raw) == 0 {
+			view = 0 // NULL
+		}
+	}
+	return sx.L{sx.I(int64(dt)), sx.I(view), sx.B(out)}
+}
+
 func genKey(g *pk.Gen) {
-	k := &kindDef{name: "key", tok: 0xCA, render: func(p tds.Package) sx.T {
-		return sx.L{sx.I(int64(p.(*tds.KeyPackage).DataType))}
-	}}
+	k := &kindDef{name: "key", tok: 0xCA, render: keyRender}
 	for dt := 0; dt < 256; dt++ {
 		t := asetypes.DataType(dt)
 		ctx := sx.L{sx.I(int64(dt))}
-		exp := sx.L{sx.I(int64(dt))}
 		mk := keyMk(dt)
 		// --- reader
 		var bodies [][]byte
@@ -191,7 +263,18 @@ func genKey(g *pk.Gen) {
 			bodies = append(bodies, append([]byte{8}, g.Rng.Bytes(3)...), append([]byte{2}, g.Rng.Bytes(7)...))
 		}
 		for _, b := range bodies {
-			k.decCtx(g, b, ctx, mk, exp, fmt.Sprintf("key;dec;dt%d;len%d", dt, len(b)))
+			raw := b
+			if t.ByteSize() > 0 {
+				if len(raw) > t.ByteSize() {
+					raw = raw[:t.ByteSize()]
+				}
+			} else {
+				raw = raw[1:]
+				if int(b[0]) < len(raw) {
+					raw = raw[:b[0]]
+				}
+			}
+			k.decCtx(g, b, ctx, mk, keyExpect(dt, raw), fmt.Sprintf("key;dec;dt%d;len%d", dt, len(b)))
 			k.malCtx(g, b, ctx, mk, fmt.Sprintf("key-mal;dt%d", dt))
 		}
 		for i := 0; i < 4; i++ {
@@ -207,7 +290,7 @@ func genKey(g *pk.Gen) {
 			}
 			bs := g.EncCase(k.tok, fields, pkg, nil, class+fmt.Sprintf(";enc-nil;dt%d", dt))
 			if len(bs) > 0 {
-				k.decCtx(g, bs[1:], ctx, mk, exp, class+fmt.Sprintf(";dec-impl-nil;dt%d", dt))
+				k.decCtx(g, bs[1:], ctx, mk, keyExpect(dt, nil), class+fmt.Sprintf(";dec-impl-nil;dt%d", dt))
 			}
 		}
 		// --- writer, Value = GoValue(dt, raw)
@@ -258,7 +341,7 @@ func genKey(g *pk.Gen) {
 				}
 				g.EncCase(k.tok, fields, pkg, ref, fmt.Sprintf("%s;enc;dt%d;len%d", class, dt, l))
 				if err == nil && !panicked && len(bs) > 0 {
-					k.decCtx(g, bs[1:], ctx, mk, exp, fmt.Sprintf("%s;dec-impl;dt%d;len%d", class, dt, l))
+					k.decCtx(g, bs[1:], ctx, mk, keyExpect(dt, raw), fmt.Sprintf("%s;dec-impl;dt%d;len%d", class, dt, l))
 				}
 			}
 		}
